@@ -3,7 +3,7 @@
 From Coq Require Import Reals List Arith Lra.
 From OSU.Model Require Import Estimators.
 From Coquelicot Require Import Coquelicot.
-From OSU.Proofs Require Import Estimators Estimators5 Estimators7.
+From OSU.Proofs Require Import Estimators Estimators5 Estimators7 Estimators8.
 Import ListNotations.
 Open Scope R_scope.
 
@@ -55,6 +55,12 @@ Theorem mem2_dist_valid : forall l d th,
   th <> [] -> length d = length th -> List.Forall (fun x => 0 < x) d ->
   List.Forall (fun x => 0 < x) (dist l d th) /\ wsum (dist l d th) d = 1 /\ length (dist l d th) = length th.
 Proof. exact mem2_dist_valid. Qed.
+
+(* the same under the weaker premise "non-negative increments with positive sum" *)
+Theorem mem2_dist_valid_nonneg : forall l d th,
+  length d = length th -> List.Forall (fun x => 0 <= x) d -> 0 < sumR d ->
+  List.Forall (fun x => 0 < x) (dist l d th) /\ wsum (dist l d th) d = 1.
+Proof. exact mem2_dist_valid_nonneg. Qed.
 
 (* the one documented exception: NaN in the first guess (NaN moments) gives the all-zero row *)
 Theorem nan_guess_zero : forall approx mo d th,
